@@ -240,7 +240,9 @@ spif_mbuff_init_from_fp(spif_mbuff_t self, FILE *fp)
         self->buff = (spif_byteptr_t) MALLOC(self->size);
 
         if (fread(self->buff, file_size, 1, fp) < 1) {
+            /* Nothing usable was read:  the object holds no buffer, so it holds no bytes either. */
             FREE(self->buff);
+            self->len = self->size = 0;
             return FALSE;
         }
     }
